@@ -4,6 +4,7 @@
 //        variant = [c|p][g|u][u|s]  copy/pointer, guarded/unguarded, unstable/stable
 //        cmp     = lt | gt | q4      a<b, a>b, a/4<b/4 (equivalence coarser than equality)
 //        seq     = csv of the keys player i will present, '-' = none (starts exhausted)
+//   storage <array|slot|fresh>   (before init) where the keys handed to the tree live, see Session::storage
 //   init [perm] insert_start(head or sup) for every player in the order `perm` (csv permutation of
 //               0..k-1, default ascending), then init()
 //   replace     delete_min_insert(winner's next key, or sup when it has none)
@@ -119,6 +120,7 @@ struct SessionBase {
     virtual ~SessionBase() {}
     virtual void init(const std::vector<long long>& order) = 0;
     virtual void replace() = 0;
+    virtual bool set_storage(const std::string& m) = 0;
 };
 
 template <typename K>
@@ -133,8 +135,41 @@ struct Session : SessionBase {
     std::unique_ptr<ITree> tree;
     bool inited = false;
 
+    // Where the key handed to the tree lives (the tree classes only get `const ValueType*`):
+    //   0 array : in the player's key array; consumed keys stay readable (as in multiway_merge)
+    //   1 slot  : each player has ONE head slot that is overwritten in place with its next key
+    //             before delete_min_insert(&slot) is called (a refilled buffer head)
+    //   2 fresh : every key is an own heap object that is freed as soon as it is consumed, so any
+    //             read of a consumed key is an ASan use-after-free
+    int storage = 0;
+    std::vector<K> slots;
+    std::vector<K*> cells;
+    ~Session() { tree.reset(); for (K* c : cells) delete c; }
+
     bool live(uint32_t i) const { return pos[i] < seqs[i].size(); }
-    const K& cur(uint32_t i) const { return seqs[i][pos[i]]; }
+    const K& cur(uint32_t i) const { return seqs[i][pos[i]]; }          // by value, for the oracle
+    // make player i's current key available to the tree (called whenever pos[i] changed)
+    void load(uint32_t i) {
+        if (storage == 1) {
+            if (slots.size() != k) slots.assign(k, K(424242));
+            slots[i] = live(i) ? cur(i) : K(424242);
+        }
+        else if (storage == 2) {
+            if (cells.size() != k) cells.assign(k, nullptr);
+            delete cells[i];
+            cells[i] = live(i) ? new K(cur(i)) : nullptr;
+        }
+    }
+    const K* keyptr(uint32_t i) const {
+        if (storage == 1) return &slots[i];
+        if (storage == 2) return cells[i];
+        return &seqs[i][pos[i]];
+    }
+    bool set_storage(const std::string& m) override {
+        if (inited) return false;
+        if (m == "array") storage = 0; else if (m == "slot") storage = 1; else if (m == "fresh") storage = 2; else return false;
+        return true;
+    }
     bool any_live() const { for (uint32_t i = 0; i < k; ++i) if (live(i)) return true; return false; }
     bool pow2() const { return (k & (k - 1)) == 0; }
 
@@ -205,8 +240,9 @@ struct Session : SessionBase {
             }
         }
         make_tree();
+        for (uint32_t i = 0; i < k; ++i) load(i);
         for (uint32_t i : ord) {
-            if (live(i)) tree->insert_start(&cur(i), i, false);
+            if (live(i)) tree->insert_start(keyptr(i), i, false);
             else tree->insert_start(nullptr, i, true);
         }
         tree->init();
@@ -221,7 +257,8 @@ struct Session : SessionBase {
         if (w >= k || !live(w) || (guarded && tree->raw_sup())) { vh::answer("bad-op"); return; }
         if (!guarded && pos[w] + 1 >= seqs[w].size()) { vh::answer("bad-op"); return; }
         ++pos[w];
-        if (live(w)) tree->dmi(&cur(w), false);
+        load(w);            // slot: the consumed key is overwritten; fresh: it is freed
+        if (live(w)) tree->dmi(keyptr(w), false);
         else tree->dmi(nullptr, true);
         vh::answer(state());
         oracle("replace");
@@ -287,6 +324,7 @@ int main(int argc, char** argv) {
             continue;
         }
         if (!sess) { vh::answer("bad-op"); continue; }
+        if (t[0] == "storage") { vh::answer(t.size() == 2 && sess->set_storage(t[1]) ? "ok" : "bad-op"); continue; }
         if (t[0] == "init") {
             std::vector<long long> order;
             bool ok = t.size() <= 2;
